@@ -96,11 +96,8 @@ func (p *principalInstance) doIntentRequestChecks(i Intent) error {
 		logrus.Info("principal: not connected to target")
 		checkIntentWithCert := func(cert *certs.Certificate) error {
 			p.targetCert = cert
-			err := p.checkIntent(i, cert)
-			if err != nil {
-				WriteIntentDenied(p.delegateConn, err.Error())
-			}
-			return err
+			// the denial is sent once, below, when target setup reports the failure
+			return p.checkIntent(i, cert)
 		}
 		tc, err := p.setUpTargetConn(targURL, checkIntentWithCert)
 		if err != nil {
@@ -111,8 +108,8 @@ func (p *principalInstance) doIntentRequestChecks(i Intent) error {
 		p.targetInfo = targURL
 		p.targetConnected = true
 		logrus.Info("principal: connected to target")
-	} else {
-		p.checkIntent(i, p.targetCert)
+	} else if err := p.checkIntent(i, p.targetCert); err != nil {
+		return WriteIntentDenied(p.delegateConn, err.Error())
 	}
 
 	err := WriteIntentCommunication(p.targetConn, i)
